@@ -120,6 +120,10 @@ theorem sendResponse_frame (c : Cfg) (s : St) (rid status : Nat) (body : BodyKin
   · constructor <;> simp
   · constructor <;> simp
 
+theorem handlerResp_frame (c : Cfg) (i : In) (s : St) (rid : Nat) (body : BodyKind) :
+    Frame s (handlerResp c i s rid body) := by
+  unfold handlerResp; split <;> exact sendResponse_frame c s rid _ body
+
 theorem dropReceiver_frame (s : St) (rid : Nat) : Frame s (dropReceiver s rid) := by
   unfold dropReceiver
   split
@@ -132,7 +136,7 @@ theorem handleRequest_frame (c : Cfg) (i : In) (s : St) (rid : Nat) (kind : ReqK
     Frame s (handleRequest c i s rid kind).1 := by
   unfold handleRequest
   split
-  · exact Frame.trans (Frame.trans (by constructor <;> simp) (dropReceiver_frame _ rid)) (sendResponse_frame c _ _ _ _)
+  · exact Frame.trans (Frame.trans (by constructor <;> simp) (dropReceiver_frame _ rid)) (handlerResp_frame c i _ _ _)
   · constructor <;> simp
 
 theorem itemState_frame (c : Cfg) (s : St) (kind : ReqKind) : Frame s (itemState c s kind) := by
@@ -188,7 +192,7 @@ theorem respStep_frame (c : Cfg) (i : In) (s0 : St) :
       · exact Frame.trans hq (Frame.trans (by constructor <;> simp) (sendResponse_frame c _ _ _ _))
       · exact Frame.trans hq (by constructor <;> simp)
   · split
-    · exact Frame.trans hq (Frame.trans (dropReceiver_frame s _) (sendResponse_frame c _ _ _ _))
+    · exact Frame.trans hq (Frame.trans (dropReceiver_frame s _) (handlerResp_frame c i _ _ _))
     · show Iter.sat _ o (if (pollRequest c i s).2.1 = true then _ else _)
       split
       · exact Frame.trans hq (pollRequest_frame c i s)
@@ -246,6 +250,15 @@ theorem sendResponse_keepAlive (c : Cfg) (s : St) (rid status : Nat) (body : Bod
   unfold sendResponse finishResponse enterLinger
   cases body <;> simp <;> (repeat' split) <;> simp_all
 
+theorem handlerResp_core (c : Cfg) (i : In) (s : St) (rid : Nat) (body : BodyKind) (h : Core s)
+    (hk : body = .empty ∨ s.keepAlive = false) (hh : body = .empty ∨ s.headTimer.isActive = false) :
+    Core (handlerResp c i s rid body) := by
+  unfold handlerResp; split <;> exact sendResponse_core c s rid _ body h hk hh
+
+theorem handlerResp_keepAlive (c : Cfg) (i : In) (s : St) (rid : Nat) (body : BodyKind)
+    (h : s.keepAlive = false) : (handlerResp c i s rid body).keepAlive = false := by
+  unfold handlerResp; split <;> exact sendResponse_keepAlive c s rid _ body h
+
 theorem dropReceiver_core (s : St) (rid : Nat) (h : Core s) : Core (dropReceiver s rid) := by
   unfold dropReceiver
   split
@@ -277,10 +290,10 @@ theorem handleRequest_decS (c : Cfg) (i : In) (s : St) (rid : Nat) (kind : ReqKi
   · rename_i body _
     have hf := dropReceiver_fields { s with st := .service rid kind } rid
     constructor
-    · apply sendResponse_core _ _ _ _ _ (dropReceiver_core _ rid hs)
+    · apply handlerResp_core _ _ _ _ _ (dropReceiver_core _ rid hs)
       · right; rw [hf.1]; exact hk
       · right; rw [hf.2.1]; exact hh
-    · apply sendResponse_keepAlive; rw [hf.1]; exact hk
+    · apply handlerResp_keepAlive; rw [hf.1]; exact hk
   · exact ⟨hs, hk⟩
 
 theorem itemState_core (c : Cfg) (s : St) (kind : ReqKind) (h : Core s) (hk : s.keepAlive = false) :
@@ -417,7 +430,7 @@ theorem respStep_core (c : Cfg) (i : In) : StepPres (onSt Core) (respStep c i) :
     split
     · show Core _
       have hf := dropReceiver_fields s rid
-      apply sendResponse_core _ _ _ _ _ (dropReceiver_core s rid h)
+      apply handlerResp_core _ _ _ _ _ (dropReceiver_core s rid h)
       · right; rw [hf.1]; exact hk
       · right; rw [hf.2.1]; exact hh
     · show Iter.sat _ o (if (pollRequest c i s).2.1 = true then _ else _)
